@@ -258,6 +258,10 @@ func c30Phase1(t *testing.T, r *kit.Run, cases int) {
 	}
 	defer done()
 	rng := r.Rand("transfers")
+	inPool := map[codec.Address]bool{}
+	for _, a := range addrs {
+		inPool[a] = true
+	}
 	balance := func(a codec.Address) uint64 {
 		vals, errs := env.nd.hvm.ReadState(env.ctx, [][]byte{storage.BalanceKey(a)})
 		if errs[0] != nil || len(vals[0]) != 8 {
@@ -270,8 +274,14 @@ func c30Phase1(t *testing.T, r *kit.Run, cases int) {
 		// sometimes any of the seven (empty accounts included)
 		ai := rng.IntN(nActors)
 		if rng.IntN(100) >= 6 {
-			for try := 0; try < 8 && balance(addrs[ai]) == 0; try++ {
-				ai = rng.IntN(nActors)
+			var funded []int
+			for i, a := range addrs {
+				if balance(a) > 0 {
+					funded = append(funded, i)
+				}
+			}
+			if len(funded) > 0 {
+				ai = funded[rng.IntN(len(funded))]
 			}
 		}
 		actor := addrs[ai]
@@ -337,6 +347,11 @@ func c30Phase1(t *testing.T, r *kit.Run, cases int) {
 					break
 				}
 				v, class = 1+rng.Uint64N(remaining), "part"
+			}
+			// funds sent to a fresh address leave the pool of actors for good:
+			// keep such transfers small so that the pool stays funded over a long run
+			if !inPool[to] && v <= remaining && v > 1000 {
+				v, class = 1+rng.Uint64N(1000), "small"
 			}
 			memo := []byte(fmt.Sprintf("c30/%d/%d/%d", r.Seed(), c, i))
 			if rng.IntN(20) == 0 {
